@@ -36,7 +36,7 @@ theorem linv_init (hy : Hyp H c) : LInv H T c (Sys.init c) where
   fifoBc := fifoBc_init c
   mbarOk := by intro i _ τ mb h; cases h
   echoHold := by intro j _ dst m h; cases h
-  sendEcho := by intro _ i _ k _ τ h; cases h
+  sendEcho := by intro i _ k _ τ _ h; cases h
   flEcho := by intro j _ l _ τ h; cases h
   flReady := by intro j _ l _ τ h; cases h
   flReq := by intro j _ l _ τ h; cases h
